@@ -111,6 +111,14 @@ CHECKS = {
              "algorithm and both Java spellings; about a hundred unknown-name variants must raise ValueError; the evidence reports "
              "that all 256 table indices were driven.",
         ref="DESIGN.md §4 C14"),
+    "C08": dict(
+        cat="exploration", tech="runtime monitoring: independent datum-driven implementation of the resolution rules as oracle over evolved reader schemas",
+        text="Reader schemas are derived from generated writer schemas by 0-4 evolution steps of 19 kinds at random depths; data are "
+             "encoded by the independent encoder and read through schemaless_reader and the container reader with the reader schema. "
+             "The oracle implements the rules exactly as C08 words them (same-type branch first, promotion otherwise, aliases, "
+             "defaults, enum defaults) and yields either a value or NoResolution => SchemaResolutionError by class identity; cases "
+             "the statement leaves open are skipped and counted.",
+        ref="DESIGN.md §4 C08"),
 }
 
 NOT_YET = "check not built yet in this session (see DESIGN.md §8 build order)"
